@@ -66,7 +66,7 @@ class FileReader:
     def __exit__(self, exc_type, exc_val, exc_tb) -> bool:
         if self.f:
             self.f.close()
-        return True
+        return False
 
 
 def detect_encoding(fname: PathOrIO, *, low_confidence: float = 0.9) -> str:
